@@ -17,6 +17,10 @@ from ..topo import REF, Topo, KIND_OF_CLASS, mesh_measure
 from .. import exact as ex
 
 ID = 'C10'
+# sub-checks added after the seeded-change waves (DESIGN.md sections 5 and 6)
+EXTENSIONS = [
+    'FacetBasis / InteriorFacetBasis normals and dx; exact trilinear volume on non-planar hexahedra; tiny length unit (2^-30); restricted MappingAffine(mesh, tind=I)',
+]
 LEVEL = 'model_checking'
 TECHNIQUE = "state invariants on MeshSpace x query forms; explicit-state exploration of query sequences on one mapping object vs fresh mapping"
 LEVEL_TEXT = ("Part (a): for every seed mesh of every class (plus mirrored, renumbered/locally reordered and straight and curved "
